@@ -3,6 +3,7 @@ import Pandora.Spec.C20
 import Pandora.Model.C20Net
 import Pandora.Model.C20Feed
 import Pandora.Model.C20Pool
+import Pandora.Model.C20Expand
 
 namespace Pandora.Drv.C20
 open Pandora.Drv Pandora.Model.C20 Pandora.Model.C20Conc Pandora.Spec.C20
@@ -93,14 +94,33 @@ def parseCall (c : String) : CallDef :=
 def isSleep (r : String) : Bool :=
   r.startsWith "sleep" && (r.toList.drop 5).all Char.isDigit && r.length > 5
 
-def parseScn (s : String) : ScenDef :=
+/-- one entry of a scenario's `requests` as the harness writes it: `name`, `name*cnt`, `name*cnt_ms` (the three-part form
+name(cnt, sleep)), `sleep<ms>` (the pseudo request sleep(ms)) -/
+def parseShoot (r : String) : Shoot :=
+  if isSleep r then { name := "sleep", cnt := ((String.ofList (r.toList.drop 5)).toNat?.getD 0 : Nat) }
+  else
+    let (name, cnt) := cut r '*'
+    let (c, ms) := cut cnt '_'
+    { name := name, cnt := if c.isEmpty then 1 else c.toInt?.getD 1, sleep := if ms.isEmpty then 0 else ms.toInt?.getD 0 }
+
+/-- the scenario's steps: the model's expansion of its request list (`Model.expandReqs` = `convertScenarioToAmmo`); an
+unknown name is kept (the run is then outside the modelled fragment: `resolveReqs`), a rejected list gives no steps (the
+configuration error is predicted by `scnError`) -/
+def parseScn (known : String → Bool) (s : String) : ScenDef :=
   let p := s.splitOn ":"
+  let shoots := (splitList (nth p 2) "+").map parseShoot
   { name := nth p 0, weight := (nth p 1).toNat?.getD 0,
-    reqs := ((splitList (nth p 2) "+").filter (fun r => !isSleep r)).flatMap fun r =>
-      let (name, cnt) := cut r '*'
-      -- `name*cnt_ms`: the three-part form name(cnt, sleep): the sleep is time only
-      let cnt := (cut cnt '_').1
-      List.replicate (if cnt.isEmpty then 1 else cnt.toNat?.getD 1) name }
+    reqs := match expandReqs (fun _ => true) shoots [] with
+      | .ok steps => steps.map (·.1)
+      | .error _ => [] }
+
+/-- the configuration error the scenario provider must answer a request list with, if any (first scenario first) -/
+def scnError (kv : List (String × String)) : Option String :=
+  ((splitList (getS kv "scns") ";").findSome? fun s =>
+    match expandReqs (fun _ => true) ((splitList (nth (s.splitOn ":") 2) "+").map parseShoot) [] with
+    | .error .leadingSleep => some "scenario-leading-sleep"
+    | .error .tooMany => some "scenario-too-many-requests"
+    | _ => none)
 
 /-- configured timeout in ms: `tmoms=` if present, else `tmo=` seconds -/
 def parseTmo (kv : List (String × String)) : Nat :=
@@ -114,7 +134,7 @@ def parseCfg (kv : List (String × String)) : Cfg :=
     g := dec (getS kv "g"),
     -- the provider's registry keeps the LAST definition of a name (`C20_registry`)
     calls := registry ((splitList (getS kv "calls") ";").map parseCall),
-    scns := (splitList (getS kv "scns") ";").map parseScn,
+    scns := (splitList (getS kv "scns") ";").map (parseScn fun _ => true),
     gn := if getS kv "gn" == "" then none else some (getS kv "gn") }
 
 def parseSched (s : String) : List Nat := s.toList.map fun c => c.toNat - 48
@@ -206,6 +226,13 @@ def handleCore : Handler := fun input impl =>
     ("run=- calls=" ++ mc ++ " samples=" ++ ms, judgeMultiset (exp.flatMap (·.calls)) (exp.flatMap (·.samples)) impl)
   | "scen" =>
     let c := parseCfg kv
+    -- a request list `convertScenarioToAmmo` rejects (a pause before any step, more than MaxScenarioRequests steps): the
+    -- provider's constructor must fail with that error
+    match scnError kv with
+    | some why =>
+      let m := "setup=" ++ why
+      (m, if impl == m then "ok" else "fail:setup:expected the configuration error " ++ why ++ ", got " ++ String.ofList (impl.toList.take 80))
+    | none =>
     if !(c.users.all plainText && plainText c.g) then ("-", "skip:unmodelled-variable-text") else
     if getS kv "run" == "engine" then
       ("-", judgeEngineScen c ((getN? kv "n").getD 1) ((getN? kv "shots").getD 0) impl)
